@@ -20,8 +20,9 @@ Sub-oracles (K = 10)
   lte            findvwLTE: K(atol + rtol v) + [K rtol Tn |dS/dv+|/|dTn'/dv+| + K atol |dS/dv+|]/|dS/dv| for each
                  solver; sentinel on one side only is a violation unless the number is within 1e-3 of v_min or v_J
                  or alpha_n within 1e-3 (relative) of a threshold
-  kappa          efficiencyFactor: |kappa_gen - kappa_tmpl|/kappa_ref <= ENV[level] (measured envelope x5, 2.4.4) and
-                 the disagreement must not grow when the tolerance is tightened
+  kappa          efficiencyFactor: |kappa_gen - kappa_tmpl|/kappa_ref <= ENV[level] (measured envelope x5, 2.4.4) + the
+                 forward image of the matching allowance on kappa (reference profile re-integrated from the shifted
+                 wall states), and the disagreement must not grow when the tolerance is tightened
 """
 from __future__ import annotations
 
@@ -328,7 +329,9 @@ def check_landmarks(case, v, th, meta, eos, pairs):
                     who = "both-wrong"
             except (R.RefFailure, TypeError):
                 pass
-            v.fail("lte", f"{lev}/sentinel-mismatch/{who}",
+            rel = "cs2>cb2" if mu < nu else "cs2<cb2" if mu > nu else "cs2=cb2"
+            strong = "vMin>0" if lo_v > 1e-3 else "vMin=0"
+            v.fail("lte", f"{lev}/sentinel-mismatch/{who}/{rel}/{strong}",
                    f"findvwLTE: general {g!r}, template {t!r} (alpha_n={alN:.6g}, Psi_n={psiN:.6g}, window "
                    f"[{lo_v:.4g}, {vJt:.6g}])", general=g, template=t)
             continue
@@ -358,7 +361,22 @@ def check_landmarks(case, v, th, meta, eos, pairs):
         v.info[f"lte_diff_{lev}"] = g - t
         v.info[f"lte_ratio_{lev}"] = abs(g - t) / (2 * a1)
         if not abs(g - t) <= 2 * a1:
-            v.fail("lte", f"{lev}/{mr.kind}/{Z.speed_bucket(vr)}/{who_wrong(g, t, vr, a1, a1)}",
+            who = who_wrong(g, t, vr, a1, a1)
+            if "template" in who or who == "both-wrong":
+                # is the template solver's "root" a jump of its own shooting function (solveAlpha switching roots)?
+                try:
+                    T_ = P.t
+
+                    def shoot(x):
+                        vm_ = min(T_.cb, x)
+                        return T_._shooting(x, T_.getVp(vm_, T_.solveAlpha(x)))
+
+                    fa, fb = shoot(t * (1 - 1e-4)), shoot(t * (1 + 1e-4))
+                    if fa * fb < 0 and min(abs(fa), abs(fb)) > 1e-3:
+                        who += "/jump"
+                except Exception:  # noqa: BLE001  (labelling aid only)
+                    pass
+            v.fail("lte", f"{lev}/{mr.kind}/{Z.speed_bucket(vr)}/{who}",
                    f"findvwLTE: general {g:.12g}, template {t:.12g}, reference {vr:.12g}; |difference| "
                    f"{abs(g - t):.3e} > {2 * a1:.2e} (alpha_n={alN:.6g}, Psi_n={psiN:.6g})",
                    general=g, template=t, reference=vr)
@@ -393,18 +411,21 @@ def check_matching(case, v, th, meta, eos, pairs):
         ref, why = None, "no-slopes"
     branch = ref.kind if ref is not None else "unknown"
     bucket = Z.speed_bucket(vw)
+    eq_cs = case["eos"]["cs2"] == case["eos"]["cb2"]   # mu == nu: the template solver's alpha+ -> 0 end is degenerate
     v.label(f"branch:{branch}")
     got = {}
+    bad_levels = set()
     for lev, P in pairs.items():
         got["g", lev] = call(P.g.findMatching, vw)
         flag = "" if branch == "detonation" or P.g.success else "/unconverged-flag"
         got["t", lev] = call(P.t.findMatching, vw)
         kg, g = got["g", lev]
         kt, t = got["t", lev]
-        cls = f"{branch}/{bucket}/{lev}"
+        cls = f"{branch}/{bucket}" + ("/near-vMin" if near_vmin else "") + ("/cs2=cb2" if eq_cs else "") + f"/{lev}"
         if kg != "num" or kt != "num":
             v.label(f"matching:{kg}/{kt}")
             if (kg == "num") != (kt == "num") and not near_vmin:
+                v.checked("none-mismatch")
                 exists = "a matching exists (reference)" if ref is not None else f"reference: {why}"
                 v.fail("none-mismatch", f"{cls}/general-{kg}/template-{kt}",
                        f"findMatching({vw:.10g}): general -> {kg} {g!r}, template -> {kt} {t!r}; {exists}; "
@@ -428,6 +449,7 @@ def check_matching(case, v, th, meta, eos, pairs):
         v.info[f"matching_ratio_{lev}"] = max(ratios.values())
         bad = [k for k, r in ratios.items() if not r <= 1.0]
         if bad:
+            bad_levels.add(lev)   # efficiency factor and boundary constants of this level are consequences
             k0 = max(bad, key=lambda k: ratios[k])
             who = who_wrong(gd[k0], td[k0], rt[k0], a[k0], a[k0])
             v.fail("matching", f"{cls}/{who}{flag if 'general' in who or who == 'both-wrong' else ''}",
@@ -473,7 +495,7 @@ def check_matching(case, v, th, meta, eos, pairs):
         return v
     d = {}
     for lev, P in pairs.items():
-        if got["g", lev][0] != "num" or got["t", lev][0] != "num":
+        if got["g", lev][0] != "num" or got["t", lev][0] != "num" or lev in bad_levels:
             continue
         try:
             kg_, kap_g = call(P.g.efficiencyFactor, vw)
@@ -487,17 +509,39 @@ def check_matching(case, v, th, meta, eos, pairs):
         d[lev] = (abs(kap_g - kap_t) / kref, kap_g / kref - 1.0, kap_t / kref - 1.0)
         v.info[f"kappa_diff_{lev}"] = d[lev][0]
     cls = f"{branch}/{bucket}" + ("/near-vJ" if nearJ else "")
+    # forward image of the matching allowance on kappa (conditioning: e.g. weak detonations at vw -> 1, where
+    # kappa ~ (vw - v-)^2 and vw - v- ~ alpha_n)
+    cond = {}
+    for lev, P in pairs.items():
+        if lev not in d:
+            continue
+        a = matching_allow(eos, Tn, vw, ref, P.rtol, P.atol)
+        dk = 0.0
+        try:
+            for sgn in (-1.0, 1.0):
+                if branch == "detonation":
+                    k2 = R.kappa(eos, Tn, vw, ref.vp, min(ref.vm + sgn * a["vm"], vw * (1 - 1e-15)), ref.Tp,
+                                 ref.Tm + sgn * a["Tm"])[0]
+                else:
+                    dv = sgn * min(a["vp"], 0.5 * ref.vp, 0.5 * (vw - ref.vp) if vw > ref.vp else a["vp"])
+                    k2 = R.kappa(eos, Tn, vw, ref.vp + dv, ref.vm, ref.Tp + ref.dTp_dvp * dv, ref.Tm + ref.dTm_dvp * dv)[0]
+                dk = max(dk, abs(k2 - kref) / kref)
+        except R.RefFailure:
+            dk = float("inf")
+        cond[lev] = dk
+        v.info[f"kappa_cond_{lev}"] = dk
     for lev in d:
         v.checked("kappa")
-        if not d[lev][0] <= KAPPA_ENV[lev]:
+        bound = KAPPA_ENV[lev] + 2.0 * cond[lev]
+        if not d[lev][0] <= bound:
             eg, et = abs(d[lev][1]), abs(d[lev][2])
-            who = "both-wrong" if min(eg, et) > KAPPA_ENV[lev] / 2 else "general-wrong" if eg > et else "template-wrong"
+            who = "both-wrong" if min(eg, et) > bound / 2 else "general-wrong" if eg > et else "template-wrong"
             v.fail("kappa", f"{cls}/{lev}/{who}",
                    f"efficiencyFactor({vw:.8g}) [{branch}, vJ={vJ:.6g}]: general and template differ by "
-                   f"{d[lev][0]:.3e} of the reference value {kref:.6g} at {lev} (envelope {KAPPA_ENV[lev]:.1e}); "
-                   f"general {d[lev][1]:+.3e}, template {d[lev][2]:+.3e} relative to the reference",
+                   f"{d[lev][0]:.3e} of the reference value {kref:.6g} at {lev} (envelope {KAPPA_ENV[lev]:.1e} + tolerance "
+                   f"image {2 * cond[lev]:.1e}); general {d[lev][1]:+.3e}, template {d[lev][2]:+.3e} relative to the reference",
                    vw=vw, kappa_ref=kref, rel_err_general=d[lev][1], rel_err_template=d[lev][2])
-    if "L0" in d and "L1" in d and d["L1"][0] > d["L0"][0] + KAPPA_NOT_WORSE:
+    if "L0" in d and "L1" in d and d["L1"][0] > d["L0"][0] + KAPPA_NOT_WORSE + 2.0 * cond["L1"]:
         v.fail("kappa", f"{cls}/not-converging",
                f"efficiencyFactor({vw:.8g}): disagreement grows when the tolerance is tightened: {d['L0'][0]:.3e} at L0, "
                f"{d['L1'][0]:.3e} at L1", vw=vw)
